@@ -16,16 +16,10 @@ namespace tapkee
 namespace tapkee_internal
 {
 
-template <class RandomAccessIterator>
-bool is_connected(RandomAccessIterator begin, RandomAccessIterator end, const Neighbors& neighbors)
+//! Depth-first search from the first vertex along the given edges
+//! @return true if every vertex is reached
+inline bool reaches_all_from_first(int N, const Neighbors& edges)
 {
-    timed_context context("Checking if graph is connected");
-
-    // The number of data points
-    int N = end - begin;
-    // The number of neighbors used in KNN
-    IndexType k = neighbors[0].size();
-
     typedef std::stack<int> DFSStack;
     typedef std::vector<bool> VisitedVector;
 
@@ -48,9 +42,9 @@ bool is_connected(RandomAccessIterator begin, RandomAccessIterator end, const Ne
         if (nvisited == N)
             break;
 
-        const LocalNeighbors& current_neighbors = neighbors[current];
+        const LocalNeighbors& current_neighbors = edges[current];
 
-        for (IndexType j = 0; j < k; ++j)
+        for (LocalNeighbors::size_type j = 0; j < current_neighbors.size(); ++j)
         {
             int neighbor = current_neighbors[j];
             if (!visited[neighbor])
@@ -59,6 +53,35 @@ bool is_connected(RandomAccessIterator begin, RandomAccessIterator end, const Ne
     }
 
     return (nvisited == N);
+}
+
+template <class RandomAccessIterator>
+bool is_connected(RandomAccessIterator begin, RandomAccessIterator end, const Neighbors& neighbors)
+{
+    timed_context context("Checking if graph is connected");
+
+    // The number of data points
+    int N = end - begin;
+    // The number of neighbors used in KNN
+    IndexType k = neighbors[0].size();
+
+    // The neighborhood graph is directed (j can be a neighbor of i without i being a neighbor
+    // of j) and shortest paths follow the edges i -> neighbors[i][j]. Every vertex reaches
+    // every other vertex iff the first vertex reaches all vertices along the edges and
+    // along the reversed edges.
+    Neighbors forward(N);
+    Neighbors backward(N);
+    for (int i = 0; i < N; ++i)
+    {
+        for (IndexType j = 0; j < k; ++j)
+        {
+            int neighbor = neighbors[i][j];
+            forward[i].push_back(neighbor);
+            backward[neighbor].push_back(i);
+        }
+    }
+
+    return reaches_all_from_first(N, forward) && reaches_all_from_first(N, backward);
 }
 
 } /* namespace tapkee_internal */
